@@ -15,6 +15,16 @@ def _calls(fa, name):
     return fa.calls(name)
 
 
+def _passes_unless_member(pd, adds):
+    """Every path to the exit performs the add, except paths on which a test established that the
+    element is already a member (adding would be a no-op)."""
+    elems = {A.norm(c.args[0]) for c in adds if c.args}
+    member_tests = [n.id for n in pd.cfg.nodes if n.kind == "test" and isinstance(n.ast, ast.Compare) and len(n.ast.ops) == 1
+                    and isinstance(n.ast.ops[0], ast.In) and A.norm(n.ast.left) in elems]
+    r = pd.cfg.reach([pd.cfg.entry], removed=pd.nodes_all(adds), edge_ok=lambda s, d, l: not (s in member_tests and l == "T"))
+    return pd.cfg.exit not in r
+
+
 def check(ck):
     R1, R2, R3, R4, R5 = ("C10.R%d" % i for i in range(1, 6))
     ck.rule(R1, "propagation on every result path: each loop iteration of the local batch runner either propagates the "
@@ -128,19 +138,23 @@ def check(ck):
     # ---- R3
     pd = FA(ck, RL + ".propagate_dependencies")
     app = [c for c in pd.calls("append") if "invocations" in A.norm(A.call_recv(c)) and "caller_memento" in A.norm(A.call_recv(c))]
-    ok1 = bool(app) and all("attr:result_memento.invocation_metadata.fn_reference_with_args" in pd.deps(c.args[0]) for c in app)
+    ok1 = bool(app) and all("attr:result_memento.invocation_metadata.fn_reference_with_args" in pd.deps(c.args[0]) for c in app) \
+        and pd.cfg.must_pass(pd.nodes_all(app), pd.cfg.exit)
     ck.ob(R3, pd.key(None, "appends-invocation"), ok1, "the callee's reference-with-arguments is appended to the caller's invocations" if ok1 else
           "propagate_dependencies does not append the callee invocation to the caller's invocation list", pd.where())
     adds = [c for c in pd.calls("add") if "attr:caller_memento.function_dependencies" in pd.deps(A.call_recv(c))]
-    ok2 = bool(adds) and all("attr:result_memento.invocation_metadata.fn_reference_with_args.fn_reference" in pd.deps(c.args[0]) for c in adds)
+    ok2 = bool(adds) and all("attr:result_memento.invocation_metadata.fn_reference_with_args.fn_reference" in pd.deps(c.args[0]) for c in adds) \
+        and _passes_unless_member(pd, adds)
     ck.ob(R3, pd.key(None, "adds-callee"), ok2, "the callee's function reference joins the caller's dependency set" if ok2 else
           "propagate_dependencies does not add the callee's function reference to the caller's dependencies", pd.where())
     merges = [s for s in pd.stmts(ast.AugAssign) if isinstance(s.op, ast.BitOr) and "attr:caller_memento.function_dependencies" in pd.deps(s.target)
               and "attr:result_memento.function_dependencies" in pd.deps(s.value)]
     merges += [c for c in pd.calls("update") if "attr:caller_memento.function_dependencies" in pd.deps(A.call_recv(c))
                and c.args and "attr:result_memento.function_dependencies" in pd.deps(c.args[0])]
-    ck.ob(R3, pd.key(None, "merges-transitive"), bool(merges), "the callee's transitive dependencies are merged into the caller's" if merges else
-          "propagate_dependencies does not merge the callee's dependency set: transitive dependencies are lost", pd.where())
+    okm = bool(merges) and pd.cfg.must_pass(pd.nodes_all(merges), pd.cfg.exit)
+    ck.ob(R3, pd.key(None, "merges-transitive"), okm, "the callee's transitive dependencies are merged into the caller's on every path" if okm else
+          "propagate_dependencies can return without merging the callee's dependency set (early return / missing union): when the same function is "
+          "called twice with arguments that reach different functions, or recursively, transitive dependencies are lost", pd.where())
 
     # ---- R4
     sfi = FA(ck, "call_stack.StackFrame.__init__")
